@@ -12,7 +12,12 @@ func init() {
 			{ID: "C01.R1", Title: "opTypeStrings lists, for every stem, Head/HeadOmitEmpty/PtrHead/PtrHeadOmitEmpty and Field/FieldOmitEmpty/End/EndOmitEmpty at exactly the offsets the OpType conversion functions add, and every Op constant indexes its own name", Covers: "omitempty / pointer-head / struct-end variants select the intended opcode", Min: 600, Run: c01r1},
 			{ID: "C01.R2", Title: "closure of the opcodes the compiler emits under the conversion functions is contained in the case labels of Run in each of the four VMs (slice/array end markers exempt when never made current)", Covers: "Marshal succeeds whenever encoding/json does (no 'opcode not implemented')", Min: 1300, Run: c01r2},
 			{ID: "C01.R3", Title: "typeToCode/typeToCodeWithPtr/mapKeyCode route every JSON-encodable reflect.Kind to a constructor and no unsupported kind", Covers: "set of supported types equals encoding/json's", Min: 50, Run: c01r3},
+			{ID: "C01.R6", Title: "typeToCode (root) and typeToCodeWithPtr (nested positions) have statement-for-statement the same clause for every kind both route, the isPtr argument aside", Covers: "the same value encodes the same at the root, through a pointer and inside a struct, slice or map", Min: 15, Run: c01r6},
+			{ID: "C01.R7", Title: "the key Mapslice.Less compares is not a slice of the encoded output (encoding/json orders map members by key string, not by encoded text)", Covers: "the same members in the same order", Min: 4, Run: c01r7},
+			{ID: "C01.R8", Title: "both composite kinds that can be stored directly in an interface word (Struct, Array) have constructors that consult runtime.IfaceIndir", Covers: "values reached directly, through a pointer and through interface{} encode alike (no crash, same output)", Min: 2, Run: c01r8},
 			{ID: "C01.R5", Title: "in each interpreter the handler of an opcode of family Int/Uint/Float32/Float64/Bool/String/Bytes/Number/MarshalJSON/MarshalText calls exactly that family's append primitive and ptrTo loader, and the plain packages' appendX variables alias encoder.AppendX", Covers: "every value is printed by the primitive of its own type (same number values, same string contents)", Min: 900, Run: c01r5},
+			{ID: "C08.R10", Title: "marshaler head handlers take the null exit for a nil struct address (shared with C08)", Covers: "Marshal succeeds whenever encoding/json does (nil *struct{M T} is null, not a panic)", Min: 16, Run: c08r10},
+			{ID: "C08.R11", Title: "marshaler pointer heads honour the pointer depth (shared with C08)", Covers: "values reached through pointers up to depth 3 encode like encoding/json", Min: 16, Run: c08r11},
 			{ID: "C01.R4", Title: "copyOpcode and every Filter method that rebuilds its receiver carry over each field that is assigned anywhere else in the package, field-for-field", Covers: "cached/filtered programs behave like the freshly compiled one", Min: 20, Run: c01r4},
 		},
 	})
@@ -111,6 +116,9 @@ func init() {
 			{ID: "C08.R6", Title: "encode/encodeNoEscape/encodeIndent append the root pointer, and Run appends mapCtx and the interface word, to ctx.KeepRefs", Covers: "callbacks that allocate, collect or grow the stack do not invalidate the traversal", Min: 10, Run: c08r6},
 			{ID: "C08.R7", Title: "recursion rule C06.R2 evaluated from the Marshal entry points on package encoder's compiler", Covers: "recursive types compile without unbounded recursion", Min: 1, Run: c08r7},
 			{ID: "C08.R9", Title: "every function that appends to ctx.recursiveCodes (emits an OpRecursive reference to its struct type) also stores the type's program in ctx.structTypeToCodes", Covers: "recursive types compile in every position (also embedded)", Min: 2, Run: c08r9},
+			{ID: "C08.R10", Title: "the four marshaler head handlers of each interpreter leave through the null exit when the struct address is nil under IndirectFlags or AddrForMarshalerFlags, before the field offset is added", Covers: "acyclic values (here: a nil pointer to a struct whose only field has a pointer-receiver marshaler) never panic", Min: 16, Run: c08r10},
+			{ID: "C01.R8", Title: "pointer-shaped arrays are handled like pointer-shaped structs (shared with C01)", Covers: "no panic and no wild read for acyclic values", Min: 2, Run: c01r8},
+			{ID: "C08.R11", Title: "the four marshaler pointer-head handlers of each interpreter follow code.PtrNum also when IndirectFlags is clear", Covers: "the marshaler of a field is called on the field, for any number of pointers in front of the struct (no read through a wrong address)", Min: 16, Run: c08r11},
 			{ID: "C08.R8", Title: "no field of Opcode/OpcodeSet/CompiledCode is written outside code.go/compiler.go/opcode.go (QueryCache excepted)", Covers: "the cached program of a type is the same for every later and concurrent encoding", Min: 30, Run: c08r8},
 		},
 	})
